@@ -109,7 +109,7 @@ class C19(vlib.PropertyCheck):
         lk = 3
         for s in seqs(lops, lk):
             cases.append('sim new 10 ; new 01 ; ' + ' ; '.join(s) if s else 'sim new 10 ; new 01')
-        for _ in range(1500 if tier == 'quick' else 60000):
+        for _ in range(1500 if tier == 'quick' else 35000):
             cases.append(self.random_history(rng, rng.randrange(3, 14 if tier == 'quick' else 30)))
         # (4) real AF_UNIX pairs
         cases += self.real_cases(tier, rng, K)
@@ -208,7 +208,7 @@ class C19(vlib.PropertyCheck):
                     for td in tds[:4]:
                         cases.append(xfer(n, rng.randrange(255), rng.choice(few_ws), rng.choice(few_sh), v, td, prefix=pf))
         # random shaped transfers
-        for _ in range(300 if tier == 'quick' else 8000):
+        for _ in range(300 if tier == 'quick' else 5000):
             n = rng.choice(SIZES)
             ws = [rng.choice(ws_alpha(n, errors=False) + ['w1024', 'w4096']) for _ in range(rng.randrange(0, 9))]
             sh = [rng.choice(SH_ALPHA + ['t4095', 't2', 't1000']) for _ in range(rng.randrange(0, 9))]
